@@ -92,12 +92,17 @@ def gen_harnesses(tier, seed):
     vm("c11_and_or", [("StartsWith['a'] & EndsWith['b']", "isinstance(v, str) and v.startswith('a') and v.endswith('b')"),
                       ("StartsWith['x'] | EndsWith['y']", "isinstance(v, str) and (v.startswith('x') or v.endswith('y'))")],
        "s: str", "s", "len(s) <= 3", prelude=PRE, extra_static=("str", "object"), warm=("'ab'", "'xy'", "'q'"))
+    vm("c11_nested_combos", [("(StartsWith['a'] | StartsWith['b']) & EndsWith['z']", "isinstance(v, str) and (v.startswith('a') or v.startswith('b')) and v.endswith('z')"),
+                             ("Intersection[Union[StartsWith['x'], EndsWith['y']], StartsWith['xy']]", "isinstance(v, str) and (v.startswith('x') or v.endswith('y')) and v.startswith('xy')")],
+       "s: str", "s", "len(s) <= 3", prelude=PRE + "\nfrom ovld.types import Union, Intersection", extra_static=("str", "object"), warm=("'az'", "'bz'", "'xy'", "'q'"))
+    vm("c11_tuple_of_tuple", [("tuple[tuple[int, int]]", "isinstance(v, tuple) and len(v) == 1 and isinstance(v[0], tuple) and len(v[0]) == 2 and isinstance(v[0][0], int) and isinstance(v[0][1], int)")],
+       "a: int, k: int", "((a,), (a, a))[k % 2]", None, extra_static=("tuple", "object"), warm=("((1, 2),)", "((1, 'a'),)", "(1,)"))
     vm("c11_regexp", [("Regexp['a+b']", "isinstance(v, str) and _re.search('a+b', v) is not None")],
        "s: str", "s", "len(s) <= 3", prelude=PRE, extra_static=("str", "object"), warm=("'ab'", "'b'", "'xab'"))
     vm("c11_haskey", [("HasKey['a']", "isinstance(v, dict) and 'a' in v"), ("HasKey['a', 'b']", "isinstance(v, dict) and 'a' in v and 'b' in v")],
        "i: int, j: int, x: int", "{('a', 'b', 'c')[i % 3]: x, ('a', 'b', 'c')[j % 3]: x}", None, prelude=PRE, extra_static=("dict", "object"),
        warm=("{'a': 1}", "{'a': 1, 'b': 2}", "{'c': 1}"))
-    vm("c11_literal_or", [("Literal[1] | Literal[2]", "type(v) in (int, bool) and v in (1, 2)"), ("Literal['a'] | Literal[3]", "(type(v) is str and v == 'a') or (type(v) in (int, bool) and v == 3)")],
+    vm("c11_literal_or", [("Literal[1] | Literal[2]", "isinstance(v, int) and v in (1, 2)"), ("Literal['a'] | Literal[3]", "(isinstance(v, str) and v == 'a') or (isinstance(v, int) and v == 3)")],
        "a: int, s: str, k: int", "(a, s)[k % 2]", "len(s) <= 2", extra_static=("int", "object"), warm=("1", "2", "3", "'a'"))
     return out
 
